@@ -473,7 +473,8 @@ def run(rep):
 
     cex = None
     npts = 0
-    for size in range(2, 42):
+    hi = 402 if getattr(rep, 'tier', 'quick') == 'thorough' else 42      # thorough tier: sizes up to 400
+    for size in range(2, hi):
         for index in range(0, size - 1):
             npts += 1
             got = bool(ev(sib['cond'], {'index': index, 'size': size}))
